@@ -214,12 +214,18 @@ func init() { registry["C15D"] = runC15Directed }
 func runC15Directed(c *Ctx) {
 	r := c.R
 	r.Rule = "directed: applier held, write buffer of size B in {1,2,4,16} filled until a Set is refused, W in {1,3,8} goroutines blocked in Wait on the full buffer (verified in the goroutine profile), then Clear or Close with tokens granted one at a time; distinct by (B, W, Clear/Close, items applied before the applier stopped)"
+	ristretto.VerifSetBucketSeconds(1) // before any cache of this process exists (a package variable of the library)
 	var wg sync.WaitGroup
 	defer wg.Wait()
 	for rep := 0; rep < c.N(2, 8); rep++ {
 		if rep%c.NParts == c.Part {
 			wg.Add(1)
 			go func(rep int) { defer wg.Done(); c15FreshVsCleared(c, 1+rep%2, uint64(rep)) }(rep)
+			for _, nc := range []int64{64, 128, 1000} {
+				for _, extra := range []int{0, 0, 3} {
+					c15ClearForgetsFrequencies(c, nc, 1+rep%3, extra)
+				}
+			}
 		}
 	}
 	idx := 0
@@ -381,7 +387,6 @@ func c15FreshVsCleared(c *Ctx, nclears int, stream uint64) {
 	r.Eval(1)
 	name := fmt.Sprintf("c15-fresh-vs-cleared-%dclears", nclears)
 	c.J.Case(name)
-	ristretto.VerifSetBucketSeconds(1)
 	l, err := lab.NewLab(lab.CacheCfg{NumCounters: 1000, MaxCost: 20, BufferItems: 64, IgnoreInternalCost: true, Metrics: true, KeyKind: "uint64", NKeys: 64, TTLTick: 1})
 	if err != nil {
 		r.Inconc(1)
@@ -489,4 +494,59 @@ func c15FreshVsCleared(c *Ctx, nclears int, stream uint64) {
 		}
 	}
 	r.DistinctKey("%s/%v", name, fresh.vals)
+}
+
+// c15ClearForgetsFrequencies: the same admission probe (two residents fill MaxCost = 2, a never-seen newcomer of
+// cost 1 arrives) on the fresh cache and again after the residents were made hot and the cache was cleared. Accesses
+// are recorded synchronously (windows*NumCounters + extra of them, so that with extra = 0 the last one closes an aging
+// window), nothing is in flight at Clear: the cleared cache must decide as the fresh one did.
+func c15ClearForgetsFrequencies(c *Ctx, nc int64, windows, extra int) {
+	r := c.R
+	r.Eval(1)
+	name := fmt.Sprintf("c15-clear-forgets-frequencies-nc%d-w%d+%d", nc, windows, extra)
+	c.J.Case(name)
+	l, err := lab.NewLab(lab.CacheCfg{NumCounters: nc, MaxCost: 2, BufferItems: 64, IgnoreInternalCost: true, KeyKind: "uint64", NKeys: 8})
+	if err != nil {
+		r.Inconc(1)
+		return
+	}
+	defer l.Forget()
+	defer l.C.Close()
+	cl := l.NewClient()
+	probe := func(a, b, n int) (admitted bool, ok bool) {
+		for _, k := range []int{a, b} {
+			if !cl.Set(k, cl.NextVal(k), 1, 0) {
+				return false, false
+			}
+			cl.Wait()
+		}
+		if !cl.Set(n, cl.NextVal(n), 1, 0) {
+			return false, false
+		}
+		cl.Wait()
+		_, admitted = l.C.Snapshot().KeyCosts[l.Hashes[n][0]]
+		return admitted, true
+	}
+	fresh, ok := probe(0, 1, 2)
+	if !ok {
+		r.Inconc(1)
+		return
+	}
+	total := windows*int(nc) + extra
+	for i := 0; i < total; i++ {
+		l.C.Increment(l.Hashes[i%2][0], 1)
+	}
+	e0, e1 := l.C.Estimate(l.Hashes[0][0]), l.C.Estimate(l.Hashes[1][0])
+	cl.Clear()
+	cleared, ok := probe(0, 1, 3)
+	if !ok {
+		r.Inconc(1)
+		return
+	}
+	r.Obs("clear_forgets_frequencies_probes", 1)
+	if fresh != cleared {
+		r.Violate("C15/cleared-differs-from-fresh", fmt.Sprintf("[%s] two residents fill the cache and a never-seen newcomer arrives: admitted=%v on the fresh cache, admitted=%v after %d recorded accesses of the two residents (estimates %d and %d) followed by Clear; estimates right after the probe: %d and %d", name, fresh, cleared, total, e0, e1, l.C.Estimate(l.Hashes[0][0]), l.C.Estimate(l.Hashes[1][0])), name)
+		return
+	}
+	r.DistinctKey("%s/adm%v", name, fresh)
 }
